@@ -16,7 +16,7 @@ from ovf import env
 env.setup_path()
 
 from ovf.gen import defs  # noqa: E402
-from ovf.mon import immut, items, ledger, purity, status  # noqa: E402
+from ovf.mon import immut, items, ledger, purity, status  # noqa: E402,F401
 from ovf.sim import explore, provider  # noqa: E402
 from ovf.sim.provider import h64  # noqa: E402
 
@@ -194,7 +194,8 @@ def replay_case(job):
     out = dict(evaluations=0, nontrivial=set(), violations=[], samples=[], counters={}, sets={})
     case = job["case"]
     m = defs.Model.from_json(case["model"]) if case.get("model") else None
-    run = explore.make_run(case, monitors(job.get("flags")), model=m, ack_chain=case.get("ack_chain", False))
+    extra = getattr(pmod, "extra_monitors", lambda: [])()
+    run = explore.make_run(case, monitors(job.get("flags")) + extra, model=m, ack_chain=case.get("ack_chain", False))
     explore.play_script(run, case["script"])
     run.finish()
     out["evaluations"] += 1
